@@ -17,9 +17,11 @@ import (
 
 	"github.com/buildbuildio/pebbles/queryer"
 	"github.com/buildbuildio/pebbles/requests"
+	"github.com/buildbuildio/pebbles/verifhook"
 	"pgregory.net/rapid"
 
 	"verif/harness/ev"
+	"verif/harness/fake"
 )
 
 // BatchCase: N sub-requests through MultiOpQueryer.Query with max batch size M.
@@ -30,6 +32,9 @@ type BatchCase struct {
 	FailTok  int    `json:"fail_tok"`  // the HTTP call carrying this token fails (-1: none)
 	FailKind string `json:"fail_kind"` // transport | status500 | notjson | errors
 	Files    []int  `json:"files"`     // tokens whose request carries an upload (sent as multipart, one call each)
+	// HoldFirst: the first HoldFirst chunk results ready for the reducer are held back until a later one is ready too
+	// (the reducer does not have to see results in completion order; steered at the verif hook point amr.worker.sendRes)
+	HoldFirst int `json:"hold_first,omitempty"`
 }
 
 type parkedCall struct {
@@ -108,7 +113,7 @@ func (bt *batchTransport) RoundTrip(req *http.Request) (*http.Response, error) {
 	if fail {
 		switch bt.c.FailKind {
 		case "transport":
-			return nil, errors.New("fake: connection reset")
+			return nil, fake.TransportError(fmt.Sprint(tokens))
 		case "status500":
 			return jsonResp(500, []byte(`{"errors":[{"message":"boom"}]}`)), nil
 		case "notjson":
@@ -203,6 +208,31 @@ func checkC11(c *BatchCase) *ev.Failure {
 		res []map[string]interface{}
 		err error
 		pan string
+	}
+	if c.HoldFirst > 0 && verifhook.Enabled {
+		var mu sync.Mutex
+		arrivals := 0
+		later := make(chan struct{})
+		verifhook.Set(func(p string) {
+			if p != "amr.worker.sendRes" {
+				return
+			}
+			mu.Lock()
+			arrivals++
+			mine := arrivals
+			if mine == c.HoldFirst+1 {
+				close(later)
+			}
+			mu.Unlock()
+			if mine <= c.HoldFirst {
+				select {
+				case <-later:
+					time.Sleep(200 * time.Microsecond) // let the later result reach the reducer first
+				case <-time.After(50 * time.Millisecond):
+				}
+			}
+		})
+		defer verifhook.Set(nil)
 	}
 	done := make(chan struct{})
 	resCh := make(chan out, 1)
@@ -309,12 +339,15 @@ func c11Labels(c *BatchCase) []string {
 	if c.N == 0 {
 		l = append(l, "N=0")
 	}
+	if c.HoldFirst > 0 {
+		l = append(l, "firstResultsHeld")
+	}
 	return l
 }
 
 func TestC11(t *testing.T) {
 	rec := ev.Get("C11")
-	rec.Rule = "N sub-requests (0..60; 0..200 thorough) x max batch size m (1..16; 1..40 thorough) x completion order of the concurrent HTTP calls (a fake RoundTripper parks every call and releases them by drawn priorities) x optional failing call (transport error, 500, non-JSON, GraphQL errors) x optional upload-carrying requests; plus the exhaustive grid N 0..40 x m 1..12 x {FIFO, LIFO} (TestC11Grid). non-trivial = N > m (chunked); distinct by hash(case)"
+	rec.Rule = "N sub-requests (0..60; 0..200 thorough) x max batch size m (1..16; 1..40 thorough) x completion order of the concurrent HTTP calls (a fake RoundTripper parks every call and releases them by drawn priorities) x optional failing call (transport error, 500, non-JSON, GraphQL errors) x optional upload-carrying requests; x optionally the first 1..2 ready chunk results held back until a later one is ready (verif hook point in AsyncMapReduce); plus the exhaustive grid N 0..40 x m 1..12 x {FIFO, LIFO, first-result-held} (TestC11Grid). non-trivial = N > m (chunked); distinct by hash(case)"
 	maxN, maxM := 60, 16
 	if ev.Thorough() {
 		maxN, maxM = 200, 40
@@ -340,6 +373,9 @@ func TestC11(t *testing.T) {
 			}
 			sort.Ints(c.Files)
 		}
+		if c.N > c.M && rapid.IntRange(0, 3).Draw(t, "hold") == 0 {
+			c.HoldFirst = rapid.IntRange(1, 2).Draw(t, "holdfirst")
+		}
 		ev.Current("C11", c)
 		nt := c.N > c.M
 		rec.Case(ev.Hash(c), nt, c11Labels(c)...)
@@ -351,18 +387,25 @@ func TestC11(t *testing.T) {
 	})
 }
 
-// TestC11Grid enumerates N 0..40 x m 1..12 exhaustively, with FIFO and LIFO completion order.
+// TestC11Grid enumerates N 0..40 x m 1..12 exhaustively, with FIFO and LIFO completion order and with the first ready result held back.
 func TestC11Grid(t *testing.T) {
 	rec := ev.Get("C11")
 	count := 0
 	for n := 0; n <= 40; n++ {
 		for m := 1; m <= 12; m++ {
-			for _, rev := range []bool{false, true} {
+			for mode := 0; mode < 3; mode++ {
+				rev := mode == 1
 				c := &BatchCase{N: n, M: m, FailTok: -1, Priority: seq(n)}
 				if rev {
 					for i := range c.Priority {
 						c.Priority[i] = n - 1 - i
 					}
+				}
+				if mode == 2 {
+					if n <= m {
+						continue // one call, nothing to reorder
+					}
+					c.HoldFirst = 1
 				}
 				ev.Current("C11", c)
 				rec.Case(ev.Hash(c), n > m, append(c11Labels(c), "grid")...)
